@@ -95,6 +95,9 @@ Definition with_state (x : conn) (rd wr : bool) : conn :=
 Definition with_io (x : conn) (entry : bool) (w : wst) : conn :=
   mkConn (c_addr x) (c_pc x) (c_wk x) (c_cf x) (c_task x) entry w (c_broken x) (c_rd x) (c_wr x) (c_err x).
 
+Definition with_err (x : conn) : conn :=
+  mkConn (c_addr x) (c_pc x) (c_wk x) (c_cf x) (c_task x) (c_entry x) (c_writer x) (c_broken x) (c_rd x) (c_wr x) true.
+
 Definition is_done (p : cpc) : bool := match p with PDone _ => true | _ => false end.
 
 (* Task.cancel() *)
@@ -122,8 +125,9 @@ Definition wake_next (s : st) (a : nat) : st :=
                       a (semval s a - 1) (semq s a)
   end.
 Definition sem_release (s : st) (a : nat) : st := wake_next (set_sem s a (semval s a + 1) (semq s a)) a.
+(* self._waiters.remove(fut): a task waits at most once, all occurrences are dropped *)
 Fixpoint remove1 (c : nat) (q : list nat) : list nat :=
-  match q with [] => [] | d :: q' => if Nat.eqb d c then q' else d :: remove1 c q' end.
+  match q with [] => [] | d :: q' => if Nat.eqb d c then remove1 c q' else d :: remove1 c q' end.
 
 (* the semaphore of a connection; a connection without address never gets this far
    (open_connection returns early), the None branches below are unreachable no-ops *)
@@ -252,9 +256,7 @@ Definition run_conn (s0 : st) (c : nat) : st :=
     if cf then finish s c XLostConnectHook 1
     else
       let kill := match wk with Some (PKill true) => true | _ => false end in
-      let s1 := if kill then setc s c (mkConn (c_addr (getc s c)) (c_pc (getc s c)) None false (c_task (getc s c))
-                                              (c_entry (getc s c)) (c_writer (getc s c)) (c_broken (getc s c))
-                                              (c_rd (getc s c)) (c_wr (getc s c)) true) else s in
+      let s1 := if kill then setc s c (with_err (getc s c)) else s in
       if c_err (getc s1 c) then hook_at s1 c HServerConnectError PHookErrKilled
       else
         match c_addr (getc s1 c) with
@@ -278,8 +280,11 @@ Definition run_conn (s0 : st) (c : nat) : st :=
                   end in
         finish s2 c XLostSem 1
       else
-        let s2 := if Nat.ltb 0 (semval s1 a) then wake_next s1 a else s1 in
-        enter_sem_body s2 c
+        match w with
+        | WWoken => let s2 := if Nat.ltb 0 (semval s1 a) then wake_next s1 a else s1 in
+                    enter_sem_body s2 c
+        | _ => s0     (* a waiter whose future has no result is never stepped normally *)
+        end
     end
   | PConnecting =>
     if cf then hook_at s c HServerConnectError (PHookErr true)
